@@ -72,17 +72,29 @@ def entry_case(clen, typ):
         fmt = I.int("fmt", 0, 2**32 - 1)
         off = I.int("off", -2**31, 2**31 - 1)
         size = I.int("size", -2**31, 2**31 - 1)
-        dates = [I.date(f"d{k}") for k in range(3)]
+        dates = [I.date(f"d{k}", -2**31, 2**31 - 1) for k in range(3)]
         comment = I.label("comment", clen)
         e = m.TdfEntry(tb.BlockType(typ), fmt, off, size, dates[0], dates[1], dates[2], comment)
         f = I.BytesIO()
-        e._write(f)
-        real = f.getvalue()
-        I.observe("real", real)
+        try:
+            e._write(f)
+            wexc = None
+        except Exception as ex:  # noqa: BLE001
+            wexc = ex
+        I.observe("write_exc", type(wexc).__name__ if wexc else None)
+        P("entry_with_in_range_fields_encodes", wexc is None, f"{type(wexc).__name__}: {wexc}" if wexc else "")
         ref = SF.mkbytes(SF.encode_entry(typ, fmt, off, size, [C._secs(d) for d in dates], comment))
-        P("entry_encoding_matches_reference", I.and_(len(real) == 288, real == ref))
+        if wexc is None:
+            real = f.getvalue()
+            I.observe("real", real)
+            P("entry_encoding_matches_reference", I.and_(len(real) == 288, real == ref))
         # decode the reference bytes with the real reader
-        e2 = m.TdfEntry._build(I.BytesIO(ref))
+        try:
+            e2 = m.TdfEntry._build(I.BytesIO(ref))
+        except Exception as ex:  # noqa: BLE001
+            P("layout_conformant_entry_decodes", False, f"{type(ex).__name__}: {ex}")
+            I.goal("done")
+            return
         P("entry_decoding_matches_reference", I.and_(e2.type.value == typ, e2.format == fmt, e2.offset == off, e2.size == size,
                                                      *[C._secs(a) == C._secs(b) for a, b in zip((e2.creation_date, e2.last_modification_date, e2.last_access_date), dates)],
                                                      C.text_eq(I, e2.comment, comment)))
